@@ -14,6 +14,10 @@ pub enum Hop {
   Sub,
   Unsub(usize),
   Peek,
+  /// the next item delivered to subscriber k calls peek() from inside the callback
+  ArmPeek(usize),
+  /// the next item delivered to subscriber k subscribes a new subscriber from inside the callback
+  ArmNested(usize),
   Complete,
   Error,
 }
@@ -34,7 +38,11 @@ macro_rules! exec {
     let mut clones = vec![b.clone()];
     // model
     let mut cur = V::I(5);
-    let mut cur_alt: Option<V> = None; // value if post-terminal `next` also updates the cell
+    let armed_peek: std::rc::Rc<std::cell::RefCell<Vec<usize>>> = Default::default();
+    let armed_nest: std::rc::Rc<std::cell::RefCell<Vec<usize>>> = Default::default();
+    let peek_problems: std::rc::Rc<std::cell::RefCell<Vec<String>>> = Default::default();
+    let mut nested_slots: Vec<(usize, usize)> = vec![]; // (armed on k, slot index)
+    let mut ever_nested: Vec<usize> = vec![];
     let mut finished = false;
     let mut active: Vec<bool> = vec![];
     let mut allowed: Vec<Vec<Vec<N>>> = vec![];
@@ -56,20 +64,27 @@ macro_rules! exec {
             let base = cur.clone();
             Behavior::<V, E>::next_by(&mut b, |x| V::I(x.int() * 2 + 1));
             let _ = base;
-            V::I(cur_alt.clone().filter(|_| finished).unwrap_or(cur.clone()).int() * 2 + 1)
+            V::I(cur.int() * 2 + 1)
           };
+          // the most recent value passed to any clone, terminated or not
+          cur = v.clone();
           if !finished {
-            cur = v.clone();
             emitted += 1;
-            for (k, a) in active.iter().enumerate() {
-              if *a {
-                for t in allowed[k].iter_mut() {
-                  t.push(N::Next(v.clone()));
-                }
+            let receivers: Vec<usize> = (0..active.len()).filter(|k| active[*k]).collect();
+            for k in &receivers {
+              for t in allowed[*k].iter_mut() {
+                t.push(N::Next(v.clone()));
               }
             }
-          } else {
-            cur_alt = Some(v);
+            // subscribers created from inside a callback of this emission:
+            // they get the in-flight value as their "current value", not a second time as an item
+            for k in receivers {
+              if let Some(pos) = nested_slots.iter().position(|(a, _)| *a == k) {
+                let (_, slot) = nested_slots.remove(pos);
+                allowed[slot] = vec![vec![N::Next(v.clone())]];
+                active[slot] = true;
+              }
+            }
           }
         }
         Hop::Clone => {
@@ -78,7 +93,7 @@ macro_rules! exec {
           b = clones[clones.len() - 1].clone();
         }
         Hop::Sub => {
-          if unsubs.len() >= 3 {
+          if unsubs.len() >= 5 {
             continue;
           }
           let id = 1 + unsubs.len() as u32;
@@ -88,12 +103,8 @@ macro_rules! exec {
             late_join = true;
           }
           if finished {
-            // joining after a terminal: the stored value or nothing (unspecified)
-            let mut opts = vec![vec![], vec![N::Next(cur.clone())]];
-            if let Some(a) = &cur_alt {
-              opts.push(vec![N::Next(a.clone())]);
-            }
-            allowed.push(opts);
+            // joining after a terminal: the most recent value (optionally followed by the terminal replayed)
+            allowed.push(vec![vec![N::Next(cur.clone())], vec![N::Next(cur.clone()), N::Complete], vec![N::Next(cur.clone()), N::Err(7)]]);
             active.push(false);
           } else {
             allowed.push(vec![vec![N::Next(cur.clone())]]);
@@ -108,9 +119,51 @@ macro_rules! exec {
         }
         Hop::Peek => {
           let p = Behavior::<V, E>::peek(&b);
-          let ok = p == cur || (finished && cur_alt.as_ref() == Some(&p));
-          if !ok {
+          if p != cur {
             problems.push(format!("peek() returned {:?}, most recent value is {:?}", p, cur));
+          }
+        }
+        Hop::ArmPeek(k) => {
+          if *k < unsubs.len() && active[*k] && !armed_peek.borrow().contains(k) {
+            armed_peek.borrow_mut().push(*k);
+            let (ap, pp, bc, kk) = (armed_peek.clone(), peek_problems.clone(), b.clone(), *k);
+            set_local_cb(
+              1 + *k as u32,
+              std::rc::Rc::new(move |n: &N| {
+                if let N::Next(v) = n {
+                  if ap.borrow().contains(&kk) {
+                    ap.borrow_mut().retain(|x| *x != kk);
+                    let p = Behavior::<V, E>::peek(&bc);
+                    if p != *v {
+                      pp.borrow_mut().push(format!("peek() from inside the callback delivering {:?} returned {:?}", v, p));
+                    }
+                  }
+                }
+              }),
+            );
+          }
+        }
+        Hop::ArmNested(k) => {
+          if *k < unsubs.len() && active[*k] && unsubs.len() < 6 && !ever_nested.contains(k) && !armed_peek.borrow().contains(k) {
+            ever_nested.push(*k);
+            armed_nest.borrow_mut().push(*k);
+            // reserve the model slot and probe id now; it becomes active at the next emission
+            let slot = unsubs.len();
+            let id = 1 + slot as u32;
+            unsubs.push(None);
+            allowed.push(vec![vec![]]);
+            active.push(false);
+            nested_slots.push((*k, slot));
+            let (an, bc, lg, kk) = (armed_nest.clone(), b.clone(), log.clone(), *k);
+            set_local_cb(
+              1 + *k as u32,
+              std::rc::Rc::new(move |n: &N| {
+                if matches!(n, N::Next(_)) && an.borrow().contains(&kk) {
+                  an.borrow_mut().retain(|x| *x != kk);
+                  std::mem::forget(bc.clone().actual_subscribe(Probe::new(id, &lg)));
+                }
+              }),
+            );
           }
         }
         Hop::Complete | Hop::Error => {
@@ -134,12 +187,15 @@ macro_rules! exec {
         }
       }
     }
+    problems.extend(peek_problems.borrow().iter().cloned());
+    clear_local_cbs();
     let seen: Vec<Vec<N>> = (0..unsubs.len()).map(|k| log.notes(1 + k as u32)).collect();
     Out { seen, allowed, problems, events: log.len() + $h.len(), late_join }
   }};
 }
 
 pub fn observe(threads: bool, h: &[Hop]) -> Result<Out, String> {
+  clear_local_cbs();
   catch(|| if threads { exec!(SubjectThreads<V, E>, h) } else { exec!(Subject<'static, V, E>, h) })
 }
 
@@ -182,7 +238,12 @@ pub fn run(cfg: &Cfg, rep: &mut Report) {
         7 => Hop::Clone,
         8..=10 => Hop::Sub,
         11 => Hop::Unsub(r.below(3)),
-        12 | 13 => Hop::Peek,
+        12 => Hop::Peek,
+        13 => match r.below(3) {
+          0 => Hop::ArmPeek(r.below(3)),
+          1 => Hop::ArmNested(r.below(3)),
+          _ => Hop::Peek,
+        },
         14 => Hop::Complete,
         _ => Hop::Error,
       })
